@@ -33,7 +33,7 @@ ASSUMPTIONS = [
 
 # chaotic iteration of a monotone operator: the fixpoint does not depend on the visiting order (reviewed)
 N1_REVIEWED = {
-    ("biobalm.space_utils:percolate_space_strict", "for var in copy(candidates)"):
+    ("biobalm.space_utils:percolate_space_strict", "scan loop of a flag-controlled fixpoint"):
         "chaotic iteration towards the least fixed point of a monotone propagation; the outer loop repeats until "
         "nothing changes, only dict contents (not list order) are produced",
 }
@@ -248,7 +248,15 @@ def n1(ck: Check) -> None:
             if sanitized:
                 ck.ob("N1", fm, stmt, True, f"set iterated through sorted()", key=key)
                 continue
-            rk = (fm.f.key, f"for {text(node.target)} in {text(node.iter)}" if isinstance(node, ast.For) else key)
+            rk = (fm.f.key, key)
+            if isinstance(node, ast.For):
+                # a reviewed entry names the loop by its role, not by the spelling of its header
+                from .c13 import _flag_form
+                encl = [l for l in fm.cfg.enclosing_loops(fm.cfg.loop_header[node]) if isinstance(l, ast.While)]
+                appends = [c_ for c_ in ast.walk(node) if isinstance(c_, ast.Call) and isinstance(c_.func, ast.Attribute)
+                           and c_.func.attr in ("append", "extend", "insert")]
+                if encl and _flag_form(fm, encl[0]) is not None and not appends:
+                    rk = (fm.f.key, "scan loop of a flag-controlled fixpoint")
             if rk in N1_REVIEWED:
                 ck.ob("N1", fm, stmt, True, "reviewed: " + N1_REVIEWED[rk], key=key)
                 continue
